@@ -103,8 +103,27 @@ pub struct FaultState {
     pub fired: AtomicUsize,
     pub kinds: Mutex<Vec<u8>>,
     pub record: std::sync::atomic::AtomicBool,
+    /// which io::ErrorKind the injected failure carries (EK_*)
+    pub err_kind: std::sync::atomic::AtomicU8,
+}
+pub const EK_OTHER: u8 = 0;
+pub const EK_EOF: u8 = 1;
+pub const EK_INTR: u8 = 2;
+pub const EK_WOULDBLOCK: u8 = 3;
+pub fn ek_name(k: u8) -> &'static str {
+    match k {
+        EK_EOF => "UnexpectedEof",
+        EK_INTR => "Interrupted",
+        EK_WOULDBLOCK => "WouldBlock",
+        _ => "Other",
+    }
 }
 impl FaultState {
+    pub fn new_kind(fail_at: usize, sticky: bool, record: bool, ek: u8) -> Arc<FaultState> {
+        let s = Self::new(fail_at, sticky, record);
+        s.err_kind.store(ek, Ordering::Relaxed);
+        s
+    }
     pub fn new(fail_at: usize, sticky: bool, record: bool) -> Arc<FaultState> {
         Arc::new(FaultState {
             ops: AtomicUsize::new(0),
@@ -113,6 +132,7 @@ impl FaultState {
             fired: AtomicUsize::new(0),
             kinds: Mutex::new(Vec::new()),
             record: std::sync::atomic::AtomicBool::new(record),
+            err_kind: std::sync::atomic::AtomicU8::new(EK_OTHER),
         })
     }
     fn op(&self, kind: u8) -> io::Result<()> {
@@ -128,7 +148,13 @@ impl FaultState {
         let at = self.fail_at.load(Ordering::Relaxed);
         if i == at || (self.sticky.load(Ordering::Relaxed) && at != usize::MAX && i > at) {
             self.fired.fetch_add(1, Ordering::Relaxed);
-            return Err(io::Error::new(io::ErrorKind::Other, "injected fault"));
+            let kind = match self.err_kind.load(Ordering::Relaxed) {
+                EK_EOF => io::ErrorKind::UnexpectedEof,
+                EK_INTR => io::ErrorKind::Interrupted,
+                EK_WOULDBLOCK => io::ErrorKind::WouldBlock,
+                _ => io::ErrorKind::Other,
+            };
+            return Err(io::Error::new(kind, "injected fault"));
         }
         Ok(())
     }
